@@ -251,6 +251,21 @@ fn check_racelaps(c: &Corpus, ctx: &mut Ctx) {
             },
             Err(pn) => p.violation("C15/RaceLaps/decode-panic", format!("race length byte {b}: {pn}"), json!({"byte": b})),
         }
+        // the conversion traits are public entry points of their own
+        match guarded(|| RaceLaps::from(b)) {
+            Ok(rl) => {
+                let expect = bind::racelaps_of(b);
+                let want = if b <= 238 { format!("{:?}", expect) } else { format!("{:?}", RaceLaps::Practice) };
+                if format!("{:?}", rl) != want {
+                    p.violation("C15/RaceLaps/from-u8", format!("RaceLaps::from({b}) = {:?}, specification says {want}", rl), json!({"byte": b}));
+                }
+                match guarded(|| u8::from(rl)) {
+                    Ok(back) if back == if b <= 238 { b } else { 0 } => {},
+                    other => p.violation("C15/RaceLaps/into-u8", format!("u8::from(RaceLaps::from({b})) = {:?}", other), json!({"byte": b})),
+                }
+            },
+            Err(pn) => p.violation("C15/RaceLaps/from-u8-panic", format!("RaceLaps::from({b}) panicked: {pn}"), json!({"byte": b})),
+        }
         // through the packets that carry it
         for (kind, off) in [("STA", 17usize), ("RST", 4usize)] {
             let lay = c.spec.packet(kind);
@@ -299,15 +314,25 @@ fn check_racelaps(c: &Corpus, ctx: &mut Ctx) {
                 let out = cur.into_inner();
                 if out.len() != 1 || !acceptable.contains(&out[0]) {
                     let sig = if representable(&rl) { "C15/RaceLaps/encode-wrong" } else { "C15/RaceLaps/out-of-range-becomes-valid" };
-                    p.violation(sig, format!("{:?} encodes to {:?}; acceptable: {:?} or an error", rl, out, acceptable), what);
+                    p.violation(sig, format!("{:?} encodes to {:?}; acceptable: {:?} or an error", rl, out, acceptable), what.clone());
                 }
             },
             Ok(Err(_)) => {
                 if representable(&rl) {
-                    p.violation("C15/RaceLaps/representable-refused", format!("{:?} is refused", rl), what);
+                    p.violation("C15/RaceLaps/representable-refused", format!("{:?} is refused", rl), what.clone());
                 }
             },
-            Err(pn) => p.violation("C15/RaceLaps/encode-panic", format!("encoding {:?} panicked: {pn}", rl), what),
+            Err(pn) => p.violation("C15/RaceLaps/encode-panic", format!("encoding {:?} panicked: {pn}", rl), what.clone()),
+        }
+        // the infallible conversion has only the documented fallback to offer
+        match guarded(|| u8::from(rl)) {
+            Ok(b) if acceptable.contains(&b) => {},
+            Ok(b) => p.violation(
+                if representable(&rl) { "C15/RaceLaps/into-u8-wrong" } else { "C15/RaceLaps/out-of-range-becomes-valid" },
+                format!("u8::from({:?}) = {b}; acceptable: {:?}", rl, acceptable),
+                what,
+            ),
+            Err(pn) => p.violation("C15/RaceLaps/into-u8-panic", format!("u8::from({:?}) panicked: {pn}", rl), what),
         }
     }
     p.sample(json!({"racelaps": "Hours(67)", "acceptable": "0 (practice) or an error; 1 (one lap) is a violation"}));
